@@ -31,6 +31,7 @@ import (
 	"fmt"
 	"go/token"
 	"go/types"
+	"regexp"
 	"sort"
 	"strings"
 
@@ -1800,4 +1801,373 @@ func c03EnvelopeContent(w *World, v ssa.Value, depth int) bool {
 		return true
 	}
 	return false
+}
+
+// ---------- fourth pass: the loader's inputs as values (parameter, or field of a parameter object) --------------------------
+//
+// Class "parameter object / function -> method": what used to be the loader's parameters (wanted type, trust-store list, store
+// implementation) may travel in a struct — the receiver or an options argument, by value or by pointer. The obligations on the
+// loader are stated on *inputs*: an input of a function is a parameter of it, or a field of a parameter object that holds, when
+// it is read, what the caller put there. At a call site the input's argument is the corresponding call argument, or the value the
+// caller stored into that field of the object it hands over (c03InputArg). Everything that was decided on "parameter i of G /
+// argument i of the call" is decided on (input of G / argument of the input) instead; the obligations themselves are unchanged.
+
+type c03Input struct {
+	param *ssa.Parameter
+	field int // -1: the parameter itself; otherwise the field of the parameter object
+}
+
+func (in c03Input) valid() bool { return in.param != nil }
+
+func (in c03Input) of(fn *ssa.Function) bool { return in.param != nil && in.param.Parent() == fn }
+
+// c03SpilledParam: a is the memory cell of a by-value parameter (go/ssa keeps a struct parameter whose fields are selected in a
+// cell): it is stored exactly once, in the entry block, with the parameter, no field or element of it is ever written, and its
+// address does not leave loads (singleStore). Reading the cell, or a field of it, anywhere in the function yields the parameter
+// (its field) as the caller passed it.
+func c03SpilledParam(a *ssa.Alloc) *ssa.Parameter {
+	p, ok := singleStore(a).(*ssa.Parameter)
+	if !ok || p.Parent() != a.Parent() || a.Referrers() == nil {
+		return nil
+	}
+	for _, r := range *a.Referrers() {
+		if st, isSt := r.(*ssa.Store); isSt && st.Addr == ssa.Value(a) && (len(a.Parent().Blocks) == 0 || st.Block() != a.Parent().Blocks[0]) {
+			return nil // a copy taken later: a read before the copy would see the zero value
+		}
+	}
+	return p
+}
+
+// c03ObjType: the unexported module struct type t (or *t) names; nil otherwise. Only module code can build or fill such an object.
+func c03ObjType(w *World, t types.Type) *types.Named {
+	if p, ok := t.Underlying().(*types.Pointer); ok {
+		t = p.Elem()
+	}
+	n, ok := types.Unalias(t).(*types.Named)
+	if !ok || n.Obj().Pkg() == nil || !w.IsProductPkg(n.Obj().Pkg().Path()) || token.IsExported(n.Obj().Name()) {
+		return nil
+	}
+	if _, isStruct := n.Underlying().(*types.Struct); !isStruct {
+		return nil
+	}
+	return n
+}
+
+// c03FieldSetOnlyOnFresh: in the whole module, field `field` of the unexported struct type of t is only ever written on an object
+// the writing function has just created itself (the base of the field address is a local allocation), and the field's address
+// never leaves a load or a store. No function then changes the field of an object it was handed by pointer: while a callee runs,
+// the field holds what the creator stored before the call.
+func c03FieldSetOnlyOnFresh(w *World, t types.Type, field int) bool {
+	n := c03ObjType(w, t)
+	if n == nil {
+		return false
+	}
+	tn := namedOf(n)
+	for _, fn := range w.Funcs {
+		for _, b := range fn.Blocks {
+			for _, in := range b.Instrs {
+				fa, ok := in.(*ssa.FieldAddr)
+				if !ok || fa.Field != field || namedOf(fa.X.Type()) != tn || fa.Referrers() == nil {
+					continue
+				}
+				for _, r := range *fa.Referrers() {
+					switch y := r.(type) {
+					case *ssa.UnOp, *ssa.DebugRef:
+					case *ssa.Store:
+						if y.Addr != ssa.Value(fa) {
+							return false
+						}
+						if _, fresh := fa.X.(*ssa.Alloc); !fresh {
+							return false
+						}
+					default:
+						return false
+					}
+				}
+			}
+		}
+	}
+	return true
+}
+
+// c03InputOf: v, read somewhere in its function, is an input of that function: a parameter; a field of a by-value parameter
+// object (the parameter itself, or its never-written memory cell); or a field of a parameter object received by pointer, when
+// nobody writes that field through a pointer (c03FieldSetOnlyOnFresh). Value-preserving conversions are looked through.
+func c03InputOf(w *World, v ssa.Value) (c03Input, bool) {
+	switch x := v.(type) {
+	case *ssa.ChangeType:
+		return c03InputOf(w, x.X)
+	case *ssa.Convert:
+		// string <-> named string type only
+		if bs, ok := x.X.Type().Underlying().(*types.Basic); ok && bs.Info()&types.IsString != 0 {
+			if bd, ok := x.Type().Underlying().(*types.Basic); ok && bd.Info()&types.IsString != 0 {
+				return c03InputOf(w, x.X)
+			}
+		}
+	case *ssa.Parameter:
+		return c03Input{x, -1}, true
+	case *ssa.Field:
+		if p, ok := x.X.(*ssa.Parameter); ok {
+			return c03Input{p, x.Field}, true
+		}
+		if ld, ok := x.X.(*ssa.UnOp); ok && ld.Op == token.MUL {
+			if a, ok := ld.X.(*ssa.Alloc); ok {
+				if p := c03SpilledParam(a); p != nil {
+					return c03Input{p, x.Field}, true
+				}
+			}
+		}
+	case *ssa.UnOp:
+		if x.Op != token.MUL {
+			break
+		}
+		switch a := x.X.(type) {
+		case *ssa.Alloc:
+			if p := c03SpilledParam(a); p != nil {
+				return c03Input{p, -1}, true
+			}
+		case *ssa.FieldAddr:
+			switch b := a.X.(type) {
+			case *ssa.Alloc:
+				if p := c03SpilledParam(b); p != nil {
+					return c03Input{p, a.Field}, true
+				}
+			case *ssa.Parameter:
+				if c03FieldSetOnlyOnFresh(w, b.Type(), a.Field) {
+					return c03Input{b, a.Field}, true
+				}
+			}
+		}
+	}
+	return c03Input{}, false
+}
+
+// c03ElemOfInput: v is an element of a list input of fn (`list[i]`, the element variable of a range over the list).
+func c03ElemOfInput(w *World, fn *ssa.Function, v ssa.Value) (c03Input, string, bool) {
+	var list ssa.Value
+	switch x := v.(type) {
+	case *ssa.UnOp:
+		if ia, ok := x.X.(*ssa.IndexAddr); ok && x.Op == token.MUL {
+			list = ia.X
+		}
+	case *ssa.Index:
+		list = x.X
+	}
+	if list == nil {
+		return c03Input{}, "", false
+	}
+	if _, isSlice := list.Type().Underlying().(*types.Slice); !isSlice {
+		return c03Input{}, "", false
+	}
+	in, ok := c03InputOf(w, list)
+	if !ok || !in.of(fn) {
+		return c03Input{}, "", false
+	}
+	return in, desc(list), true
+}
+
+func c03Precedes(a, b ssa.Instruction) bool {
+	if a.Block() != b.Block() {
+		return a.Block().Dominates(b.Block())
+	}
+	for _, in := range a.Block().Instrs {
+		if in == a {
+			return true
+		}
+		if in == b {
+			return false
+		}
+	}
+	return false
+}
+
+// c03ObjectField: the value field `field` of the parameter object obj holds when it is handed over at `at`. The object is a local
+// of the calling function, built there: every use of it is a field store / field load, a load of the whole object (handing it over
+// by value) or — only if nobody writes the field through a pointer — a call it is handed to by pointer; the field is stored
+// exactly once and that store comes before the hand-over on every path (it dominates it). Or the object is the value of an
+// *object constructor*: a module function every exit of which returns one such fresh object, the field stored from a parameter of
+// the constructor (then: the argument of the constructor call) or a constant.
+func c03ObjectField(w *World, obj ssa.Value, field int, at ssa.Instruction, depth int) (ssa.Value, bool) {
+	if depth > 2 {
+		return nil, false
+	}
+	var al *ssa.Alloc
+	byPtr := false
+	switch x := obj.(type) {
+	case *ssa.UnOp:
+		if x.Op == token.MUL {
+			al, _ = x.X.(*ssa.Alloc)
+			at = x // the copy that is handed over is taken here
+		}
+	case *ssa.Alloc:
+		al, byPtr = x, true
+	case *ssa.Call:
+		return c03CtorObjectField(w, x, field, depth)
+	}
+	if al == nil || al.Parent() != at.Parent() || al.Referrers() == nil || c03ObjType(w, al.Type().Underlying().(*types.Pointer).Elem()) == nil {
+		return nil, false
+	}
+	var st *ssa.Store
+	for _, r := range *al.Referrers() {
+		switch y := r.(type) {
+		case *ssa.DebugRef:
+		case *ssa.UnOp:
+		case *ssa.FieldAddr:
+			if y.Referrers() == nil {
+				continue
+			}
+			for _, rr := range *y.Referrers() {
+				switch z := rr.(type) {
+				case *ssa.UnOp, *ssa.DebugRef:
+				case *ssa.Store:
+					if z.Addr != ssa.Value(y) {
+						return nil, false
+					}
+					if y.Field == field {
+						if st != nil {
+							return nil, false
+						}
+						st = z
+					}
+				default:
+					return nil, false
+				}
+			}
+		case ssa.CallInstruction:
+			if !byPtr || !c03FieldSetOnlyOnFresh(w, al.Type(), field) {
+				return nil, false
+			}
+		default:
+			return nil, false
+		}
+	}
+	if st == nil || !c03Precedes(st, at) {
+		return nil, false
+	}
+	return st.Val, true
+}
+
+// c03CtorObjectField: call is a call of an object constructor (see c03ObjectField); the field's value seen from the caller.
+func c03CtorObjectField(w *World, call *ssa.Call, field int, depth int) (ssa.Value, bool) {
+	H := staticCallee(call)
+	if H == nil || H.Blocks == nil || !w.IsProductFn(H) || len(call.Call.Args) != len(H.Params) || H.Signature.Results().Len() != 1 {
+		return nil, false
+	}
+	var out ssa.Value
+	n := 0
+	for _, b := range H.Blocks {
+		r, ok := blockTerm(b).(*ssa.Return)
+		if !ok {
+			continue
+		}
+		if len(r.Results) != 1 {
+			return nil, false
+		}
+		fv, ok := c03ObjectField(w, r.Results[0], field, r, depth+1)
+		if !ok {
+			return nil, false
+		}
+		if p, isP := fv.(*ssa.Parameter); isP {
+			i := c03ParamIndex(p)
+			if p.Parent() != H || i < 0 {
+				return nil, false
+			}
+			fv = call.Call.Args[i]
+		} else if _, isK := fv.(*ssa.Const); !isK {
+			return nil, false
+		}
+		if n > 0 && fv != out {
+			if ka, okA := fv.(*ssa.Const); !okA {
+				return nil, false
+			} else if kb, okB := out.(*ssa.Const); !okB || constString(ka) != constString(kb) {
+				return nil, false
+			}
+		}
+		out = fv
+		n++
+	}
+	return out, n > 0
+}
+
+// c03InputArg: what the call of the input's function passes for the input: the argument, or the value the field of the handed-over
+// parameter object holds (c03ObjectField).
+func c03InputArg(w *World, call *ssa.Call, in c03Input) (ssa.Value, bool) {
+	idx := c03ParamIndex(in.param)
+	if idx < 0 || in.param.Parent() == nil || len(call.Call.Args) != len(in.param.Parent().Params) || staticCallee(call) != in.param.Parent() {
+		return nil, false
+	}
+	a := call.Call.Args[idx]
+	if in.field < 0 {
+		return a, true
+	}
+	return c03ObjectField(w, a, in.field, call, 0)
+}
+
+// c03AfterColon: v is "the part of s after the first ':'": the second result of strings.Cut(s, ":"), or s[i+1:] with
+// i = strings.Index(s, ":") / IndexByte(s, ':') / IndexRune(s, ':') of the same s. Returns s.
+func c03AfterColon(v ssa.Value) ssa.Value {
+	isColon := func(k ssa.Value) bool {
+		c, ok := k.(*ssa.Const)
+		if !ok || c.Value == nil {
+			return false
+		}
+		s := constString(c)
+		return s == `":"` || s == "58"
+	}
+	switch x := v.(type) {
+	case *ssa.Extract:
+		call, ok := x.Tuple.(*ssa.Call)
+		if ok && x.Index == 1 && calleeName(call) == "strings.Cut" && len(call.Call.Args) == 2 && isColon(call.Call.Args[1]) {
+			return call.Call.Args[0]
+		}
+	case *ssa.Slice:
+		bo, ok := x.Low.(*ssa.BinOp)
+		if !ok || x.High != nil || x.Max != nil || bo.Op != token.ADD {
+			return nil
+		}
+		if k, isK := bo.Y.(*ssa.Const); !isK || constString(k) != "1" {
+			return nil
+		}
+		call, ok := bo.X.(*ssa.Call)
+		if !ok || len(call.Call.Args) != 2 || !isColon(call.Call.Args[1]) {
+			return nil
+		}
+		switch calleeName(call) {
+		case "strings.Index", "strings.IndexByte", "strings.IndexRune":
+			if call.Call.Args[0] == x.X || desc(call.Call.Args[0]) == desc(x.X) {
+				return x.X
+			}
+		}
+	}
+	return nil
+}
+
+var c03ReName = regexp.MustCompile(`^call:strings\.Cut\((param:[A-Za-z0-9_]+)(\[.*\])?,const:":"\)#1$`)
+
+// c03NameSubject: the store name handed to GetCertificates is the part after the first ':' of a listed entry; the entry is an
+// element of a list input of G (list, listD: its printed form) or — per-entry loader — a parameter of G (entry). Decided on the
+// SSA value; the printed form (which the engine also produces when the cut is made by a transparent helper) must agree, and is
+// the fallback: the parameter it mentions is looked up in G.
+func c03NameSubject(w *World, G *ssa.Function, name ssa.Value, nameD string) (list c03Input, listD string, entry *ssa.Parameter, ok bool) {
+	if s := c03AfterColon(name); s != nil && nameD == "call:strings.Cut("+desc(s)+`,const:":")#1` {
+		if p, isP := s.(*ssa.Parameter); isP && p.Parent() == G {
+			return c03Input{}, "", p, true
+		}
+		if in, d, isEl := c03ElemOfInput(w, G, s); isEl {
+			return in, d, nil, true
+		}
+	}
+	m := c03ReName.FindStringSubmatch(nameD)
+	if m == nil {
+		return c03Input{}, "", nil, false
+	}
+	for _, p := range G.Params {
+		if "param:"+p.Name() == m[1] {
+			if m[2] != "" {
+				return c03Input{p, -1}, m[1], nil, true
+			}
+			return c03Input{}, "", p, true
+		}
+	}
+	return c03Input{}, "", nil, false
 }
